@@ -314,3 +314,57 @@ func (e *Exec) strModel(fn *ssa.Function, name string, a []Value) Value {
 func (e *Exec) formatFloatSym(t *Term, a []Value) Value {
 	return StrV{opq: &opaqueStr{parts: []opaquePart{{kind: 4, dec: t}}}}
 }
+
+func init() {
+	I := intrinsics
+	I["(*strings.Builder).Grow"] = func(e *Exec, fn *ssa.Function, a []Value, c *Frame) Value { return nil }
+	I["(*strings.Builder).WriteString"] = func(e *Exec, fn *ssa.Function, a []Value, c *Frame) Value {
+		k := ptrKey(a[0])
+		s := a[1].(StrV)
+		e.builders[k] = e.strConcat(e.builders[k], s)
+		n := 0
+		if s.opq == nil {
+			n = s.Len()
+		}
+		return TupleV{e.tt.BVConst(uint64(n), 64), IfaceV{}}
+	}
+	I["(*strings.Builder).WriteByte"] = func(e *Exec, fn *ssa.Function, a []Value, c *Frame) Value {
+		k := ptrKey(a[0])
+		e.builders[k] = e.strConcat(e.builders[k], e.mkStr([]*Term{a[1].(*Term)}))
+		return IfaceV{}
+	}
+	I["(*strings.Builder).WriteRune"] = func(e *Exec, fn *ssa.Function, a []Value, c *Frame) Value {
+		k := ptrKey(a[0])
+		r := a[1].(*Term)
+		if r.Const {
+			s := string(rune(sext(r.U, 32)))
+			e.builders[k] = e.strConcat(e.builders[k], StrV{s: s})
+			return TupleV{e.tt.BVConst(uint64(len(s)), 64), IfaceV{}}
+		}
+		if !e.Branch(e.tt.ULt(r, e.tt.BVConst(0x80, 32))) {
+			panic(pathEnd{"cut", "non-ASCII symbolic rune in strings.Builder.WriteRune"})
+		}
+		e.builders[k] = e.strConcat(e.builders[k], e.mkStr([]*Term{e.tt.Extract(r, 7, 0)}))
+		return TupleV{e.tt.BVConst(1, 64), IfaceV{}}
+	}
+	I["(*strings.Builder).Write"] = func(e *Exec, fn *ssa.Function, a []Value, c *Frame) Value {
+		k := ptrKey(a[0])
+		elems := e.sliceElems(a[1].(SliceV))
+		bs := make([]*Term, len(elems))
+		for i, x := range elems {
+			bs[i] = x.(*Term)
+		}
+		e.builders[k] = e.strConcat(e.builders[k], e.mkStr(bs))
+		return TupleV{e.tt.BVConst(uint64(len(bs)), 64), IfaceV{}}
+	}
+	I["(*strings.Builder).String"] = func(e *Exec, fn *ssa.Function, a []Value, c *Frame) Value {
+		return e.builders[ptrKey(a[0])]
+	}
+	I["(*strings.Builder).Len"] = func(e *Exec, fn *ssa.Function, a []Value, c *Frame) Value {
+		return e.tt.BVConst(uint64(e.builders[ptrKey(a[0])].Len()), 64)
+	}
+	I["(*strings.Builder).Reset"] = func(e *Exec, fn *ssa.Function, a []Value, c *Frame) Value {
+		delete(e.builders, ptrKey(a[0]))
+		return nil
+	}
+}
